@@ -23,8 +23,22 @@ FirstFiles == UNION {{ <<I(ids[1], "leaf", ids[1], <<>>), I(ids[2], "node", ids[
                       (IF NFirst > 2 THEN { <<I(ids[1], "leaf", ids[1], <<>>), I(ids[2], "leaf", ids[2], <<>>), I(ids[3], "cx", ids[3], <<ids[2], ids[1]>>)>> } ELSE {})
                       : ids \in IdSets}
 ThirdFiles == {<<I(ids[1], "leaf", ids[1], <<>>), I(ids[2], "node", ids[2], <<ids[1]>>), I(ids[3], "h_sels", 0, <<ids[2], ids[1]>>)>> : ids \in IdSets}
-Scenarios == IF Third THEN {<<f1, f2, f3>> : f1 \in FirstFiles, f2 \in AllFiles, f3 \in ThirdFiles}
-             ELSE {<<f1, f2>> : f1 \in FirstFiles, f2 \in AllFiles}
+(* the offset is computed from the highest id the session has seen: first files whose highest id is sparse and    *)
+(* comes last, first, or in the middle, first files of one and two instances, and second files whose ids land on *)
+(* an earlier id when the offset is computed from anything less than the true maximum                            *)
+SparseFirst == { <<I(1, "leaf", 1, <<>>), I(2, "node", 2, <<1>>), I(5000, "leaf", 5000, <<>>)>>,
+                 <<I(7000, "leaf", 7000, <<>>), I(2, "node", 2, <<7000>>), I(3, "leaf", 3, <<>>)>>,
+                 <<I(4, "leaf", 4, <<>>), I(6500, "node", 6500, <<4>>), I(5, "leaf", 5, <<>>)>>,
+                 <<I(7, "leaf", 7, <<>>)>>, <<I(2500, "leaf", 2500, <<>>)>>,
+                 <<I(3, "leaf", 3, <<>>), I(4100, "node", 4100, <<3>>)>> }
+LandingIds == { <<1, 3000, 3001>>, <<1, 2, 3>>, <<500, 2500, 4500>>, <<2000, 4000, 5000>> }
+SparseScenarios == {<<f1, f2>> : f1 \in SparseFirst,
+                               f2 \in UNION {{f \in FilesOf(ids) : f[1].ty = "leaf" /\ f[3].ty \in {"node", "h_items"}} : ids \in LandingIds}}
+Scenarios == (IF Third THEN {<<f1, f2, f3>> : f1 \in FirstFiles, f2 \in AllFiles, f3 \in ThirdFiles}
+              ELSE {<<f1, f2>> : f1 \in FirstFiles, f2 \in AllFiles})
+             \cup SparseScenarios
+             \cup (IF Third THEN {<<f1, f2, f3>> : f1 \in SparseFirst, f2 \in {<<I(1, "leaf", 1, <<>>), I(9000, "node", 9000, <<1>>)>>},
+                                                  f3 \in {g \in FilesOf(<<1, 3000, 3001>>) : g[1].ty = "leaf" /\ g[3].ty = "node"}} ELSE {})
 VARIABLE sc
 Init == sc \in Scenarios
 Next == UNCHANGED sc
